@@ -155,6 +155,22 @@ def py_wf(lines, need_group):
                     t = otype(n["ins"][i])
                     if t is not None and t != n["outs"][0][0]:
                         bad.append(f"node {nid} ({k}): input {i} has type {t} but the node requires its output type {n['outs'][0][0]}")
+    def owidth(d):
+        t = otype(d)
+        return None if t is None else int(t.split(".")[1])
+    for nid, n in nodes.items():
+        k = n.get("kind") or ""
+        if k.startswith("memport:"):
+            ab, db = map(int, k[8:].split("."))
+            for i, w, what in ((0, 1, "enable"), (1, 1, "write enable"), (2, ab, "address"), (3, db, "write data")):
+                if i < len(n["ins"]):
+                    x = owidth(n["ins"][i])
+                    if x is not None and x != w:
+                        bad.append(f"node {nid} (memory port): {what} input is driven with {x} bits, the port requires {w}")
+        if k == "cmp" and len(n["ins"]) >= 2:
+            a, b = owidth(n["ins"][0]), owidth(n["ins"][1])
+            if a is not None and b is not None and a != b:
+                bad.append(f"node {nid} (compare): operands of {a} and {b} bits")
     for gid, g in groups.items():
         if g["p"] == "X" or (g["p"] != "-" and int(g["p"]) not in groups):
             bad.append(f"group {gid}: parent missing")
@@ -361,6 +377,59 @@ def gen_creating(seed, did):
         shapes.append("pathattr")
     new = body[:cut] + extra + body[cut:] + [f"out oc{k} {v}" for k, v in enumerate(outs)]
     return [head] + new + tail, used + shapes
+
+
+def gen_memory(seed, did):
+    """RAM / ROM crossing the memory passes (MemoryDetector: reset logic from initZero / power-on contents, read-port
+    registers, ...) under the clock configurations that change them: sync / async / no reset, active low, memoryResetType"""
+    import random
+    rng = random.Random(seed * 13 + 7)
+    rst = rng.choice(["sync", "async", "async", "async", "none"])
+    cfg = f"clockcfg rst={rst}"
+    if rng.random() < 0.3:
+        cfg += " act=low"
+    if rst != "none" and rng.random() < 0.35:
+        cfg += " memrst=" + rng.choice(["sync", "async", "none"])
+    if rng.random() < 0.15:
+        cfg += " initmem=" + rng.choice("01")
+    depth = rng.choice([2, 4, 8, 16, 16, 32, 3, 5, 6, 12])
+    width = rng.choice([1, 2, 4, 8])
+    ab = max(1, (depth - 1).bit_length())
+    rom = rng.random() < 0.2
+    init = "fill" if rom else rng.choice(["zero", "zero", "fill", "none"])
+    L = [f"design {did}", cfg]
+    opts = []
+    if init == "zero":
+        opts.append("zero")
+    elif init == "fill":
+        opts.append("fill=" + "".join(rng.choice("01") for _ in range(depth * width)))
+    if rng.random() < 0.2:
+        opts.append("noconf")
+    L += [f"in ra {ab}", f"in ra2 {ab}", "inb en"]
+    L.append(f"mem M {depth} {width} " + " ".join(opts))
+    outs = []
+    if not rom:
+        nw = rng.choice([1, 1, 2])
+        for k in range(nw):
+            L += [f"in wa{k} {ab}", f"in wd{k} {width}", f"inb we{k}"]
+            if rng.random() < 0.8:
+                L += [f"if we{k}", f"memwrite M wa{k} wd{k}", "endif"]
+            else:
+                L += [f"memwrite M wa{k} wd{k}"]
+    for k in range(rng.choice([1, 1, 2])):
+        a = "ra" if k == 0 else "ra2"
+        L.append(f"memread rd{k} M {a}")
+        v = f"rd{k}"
+        for r in range(rng.choice([0, 1, 1, 2])):
+            L.append(f"reg rq{k}_{r} {v}")
+            v = f"rq{k}_{r}"
+        outs.append(v)
+    if width > 1 and rng.random() < 0.5:
+        L.append(f"bin s0 add {outs[0]} {outs[-1]}")
+        outs.append("s0")
+    L += [f"out o{k} {v}" for k, v in enumerate(outs)]
+    L.append(rng.choice(["dropall", "dropall", "drop ra"]))
+    return L, [f"memory:{'rom' if rom else 'ram'}:{depth}x{width}:{init}:{cfg[9:]}"]
 
 
 def gen_clockdrv(seed, did):
@@ -987,6 +1056,8 @@ def main():
             designs.append(gen_creating(seed * 100003 + 50000 + i, f"c{i}"))
         for i in range(nshape):
             designs.append(gen_clockdrv(seed * 100003 + 70000 + i, f"k{i}"))
+        for i in range(nshape + nshape // 3):
+            designs.append(gen_memory(seed * 100003 + 90000 + i, f"m{i}"))
     slacks = "-,0,1,2,3" if quick else "-,0,1,2,3,5,8"
     fails, t2, t2crashed, files = ([], dict(dumps=0, ok=0, fail=0, skipped=0, kinds={}, errors=[]), [], [])
     prog = {d[0][0].split()[1]: d for d in designs}
@@ -1154,7 +1225,8 @@ def main():
     rep.cov["t2"] = dict(designs=len(designs), dumps_checked=t2["dumps"], accepted=t2["ok"], rejected=t2["fail"], skipped_variants=t2["skipped"],
                          dumps_that_differ_from_predecessor=t2_distinct, node_kinds_seen=t2["kinds"],
                          boundaries_that_changed_the_graph=dict(sorted(changed.items(), key=lambda kv: -kv[1])[:60]), canary=can,
-                         node_creating_shape_designs=nshape, clock_driver_shape_designs=nshape,
+                         node_creating_shape_designs=nshape, clock_driver_shape_designs=nshape, memory_shape_designs=nshape + nshape // 3,
+                         memory_shapes=sorted({t for d in designs for t in d[1] if str(t).startswith("memory:")})[:60],
                          clock_driver_call_patterns=sorted({t for d in designs for t in d[1] if str(t).startswith("clkdrv:")}), node_vector_slacks=slacks, forked_cases=len(files),
                          cases_that_died=len(crashes), died_in={k: len(v) for k, v in by_pass.items()},
                          passes_in_which_the_node_vector_was_reallocated_under_tight_capacity=dict(sorted(reallocs.items(), key=lambda kv: -kv[1])),
